@@ -154,6 +154,32 @@ def correspondence(ctx):
             for key, prog in list(calc._programs.items())[:6]:
                 prog_reqs.append(("program", dict(graph=c["graph"], changed=list(key))))
                 prog_real.append(([cell.rank for cell in prog], c["graph"], list(key)))
+    # the SPECIFICATION function of the theorems, `evalFresh`, run directly (driver `fresh`) at the vector the
+    # real calculator reports at the end of the history: against the independent python evaluation and
+    # against the real calculator's final buffer
+    fresh_reqs, fresh_exp = [], []
+    for ci, c in enumerate(cases[:n_valid]):
+        if ci % 4:
+            continue
+        init, steps, _ = cc.run_real(c["graph"], c["x0"], c["ops"])
+        if init == "raises" or not steps:
+            continue
+        x = steps[-1]["last"]
+        fresh_reqs.append(("fresh", dict(graph=c["graph"], x=x)))
+        fresh_exp.append((cc.fresh_python(c["graph"], x), steps[-1]["cur"], c))
+        # and at an arbitrary vector (usually one where some calc raises)
+        x2 = [(v * 3 + i) % 7 for i, v in enumerate(x)]
+        fresh_reqs.append(("fresh", dict(graph=c["graph"], x=x2)))
+        fresh_exp.append((cc.fresh_python(c["graph"], x2), None, c))
+    for (_, rq), (want, real_cur, c), mod in zip(fresh_reqs, fresh_exp, ctx.driver.batch(fresh_reqs)):
+        out["evaluations"] += 1
+        bump(out, "evalFresh", "raises" if want is None else "values")
+        if mod != want:
+            add_failure(out, "corr", "model evalFresh differs from the independent from-scratch evaluation", rq, want, mod,
+                        confirmed=False)
+        elif real_cur is not None and mod is not None and mod != real_cur:
+            add_failure(out, "corr", "model evalFresh at the reported vector differs from the real calculator's buffer",
+                        rq, real_cur, mod, confirmed=False)
     for (_, rq), (real, g, key), mod in zip(prog_reqs, prog_real, ctx.driver.batch(prog_reqs)):
         out["evaluations"] += 1
         bump(out, "program_size", min(len(real), 20) // 4 * 4)
@@ -179,6 +205,7 @@ def _corr_rules(ctx, out):
         taxa_idx = rng.randrange(3)
         lf, edges, d = R.setup(taxa_idx, model, par)
         ops = [R.rand_op(rng, d["n"], par) for _ in range(rng.randint(1, 8))]
+        init_real = dict(rules=R.canon_real_rules(lf, par, edges), nfp=lf.defn_for[par].get_num_free_params())
         steps = []
         for op in ops:
             err = R.apply_real(lf, par, edges, op)
@@ -192,23 +219,29 @@ def _corr_rules(ctx, out):
             fresh.apply_param_rules([r for r in lf.get_param_rules() if r["par_name"] == par])
         rt = dict(rules=R.canon_real_rules(fresh, par, edges), nfp=fresh.defn_for[par].get_num_free_params())
         reqs.append(("rules", R.to_req(d, ops)))
-        reals.append((ops, steps, d, model, par, rt))
-    for (ops, steps, d, model, par, rt), m in zip(reals, ctx.driver.batch(reqs)):
+        reals.append((ops, steps, d, model, par, rt, init_real))
+    for (ops, steps, d, model, par, rt, init_real), m in zip(reals, ctx.driver.batch(reqs)):
         out["evaluations"] += 1
         inp = dict(model=model, par=par, defn=d, ops=ops)
         if "error" in m:
             add_failure(out, "corr", "rules model: driver error", inp, None, m, confirmed=False)
             continue
+        # the newly built function (`Rules.fresh`): exported rules and nfp before any set_param_rule
+        mi = m["init"]
+        if not R.rules_close(init_real["rules"], R.canon_model_rules(mi["rules"])) or init_real["nfp"] != mi["nfp"]:
+            add_failure(out, "corr", "newly built function: exported rules / nfp of the parameter differ from the model's "
+                        "fresh state", dict(inp, ops=[]), mi, init_real, confirmed=False)
+            continue
         ok = True
         for i, (a, b) in enumerate(zip(steps, m["steps"])):
             bump(out, "rules_step", "raises:" + a["err"] if a["err"] else "ok")
             if a["err"] or "err" in b:
+                # exception CLASS is compared (the model's error strings are the class names)
                 if (a["err"] or None) != b.get("err"):
-                    if not (a["err"] and "err" in b):
-                        add_failure(out, "corr", "set_param_rule raises differently from the model",
-                                    dict(inp, ops=ops[: i + 1]), b.get("err"), a["err"], confirmed=False)
-                        ok = False
-                        break
+                    add_failure(out, "corr", "set_param_rule raises differently from the model",
+                                dict(inp, ops=ops[: i + 1]), b.get("err"), a["err"], confirmed=False)
+                    ok = False
+                    break
                 continue
             mr = R.canon_model_rules(b["rules"])
             if not R.rules_close(a["rules"], mr) or a["nfp"] != b["nfp"]:
@@ -656,6 +689,10 @@ def match_finding(f, k):
     inp = f.get("input") or {}
     if r.get("kind") and inp.get("kind") != r["kind"]:
         return False
+    if r.get("needs_multidim"):
+        # the defect needs a second scope dimension: at least two loci or at least two bins
+        if not (len(inp.get("loci") or []) >= 2 or int(inp.get("bins") or 0) >= 2):
+            return False
     if r.get("needs_exception_exit"):
         # the failing step must be (lf) the block an exception left, or (toy controller) come after such an exit
         ops = inp.get("ops") or []
